@@ -57,6 +57,21 @@ def handleObjects : List String → String
     match eb.toNat?, parseCtx (rest.take 17), parseCtx (rest.drop 17) with
     | some eb, some c1, some c2 => if c1.toElements eb = c2.toElements eb then "collision" else "distinct"
     | _, _, _ => "bad-op"
+  | ["ti_new", a, b, c, d, ml] =>
+    -- constructor acceptance: does `TraceInfo::new_multi_segment` return or panic?
+    match a.toNat?, b.toNat?, c.toNat?, d.toNat?, ml.toNat? with
+    | some a, some b, some c, some d, some ml =>
+      if (TraceInfo.newOk ⟨a, b, c, d, List.replicate ml 0⟩) then "ok" else "panic"
+    | _, _, _, _, _ => "bad-op"
+  | "po_new" :: rest => match parsePO rest with
+    | some o => if o.newOk then "ok" else "panic"
+    | none => "bad-op"
+  | ["ctx_new", len, blowup, nc] =>
+    match len.toNat?, blowup.toNat?, nc.toNat? with
+    | some len, some blowup, some nc =>
+      let c : Context := ⟨⟨1, 0, 0, len, []⟩, [1], ⟨1, blowup, 0, 1, 2, 0, 0, 0, 1, 1⟩, nc⟩
+      if c.newOk then "ok" else "panic"
+    | _, _, _ => "bad-op"
   | "po_enc" :: rest => match parsePO rest with
     | some o => toHex o.encode
     | none => "bad-op"
